@@ -12,31 +12,31 @@ LEVEL_NOTE = ("Trusted base: the reference model in harness/src/alu.rs + refexec
 
 # id -> (technique, level text, design ref)
 CHECKS = {
- "C01": ("bounded-exhaustive enumeration of operand values x flag words x operand forms on the real Preprocessor+Interpreter, compared with a reference ALU (explicit-state, depth 1)",
-         "All 2^16 byte operand pairs x carry x 4 prior flag words, word boundary lattices squared, all values for INC/DEC/NEG, and every operand form of syntax.md are executed on the real pipeline and every post state (13 registers, flags, whole 1 MB) is compared with the reference; thorough adds a 1000-value word lattice squared.",
+ "C01": ("bounded-exhaustive enumeration of operand values x flag words x operand forms on the real Preprocessor+Interpreter, compared with a reference ALU (explicit-state, depth 1); plus exhaustive instruction sequences (histories) of depth 3/4 on one machine and one Interpreter object compared after every step",
+         "All 2^16 byte operand pairs x carry x 4 prior flag words, word boundary lattices squared, all values for INC/DEC/NEG, and every operand form of syntax.md are executed on the real pipeline and every post state (13 registers, flags, whole 1 MB) is compared with the reference; thorough adds a 1000-value word lattice squared. Word operands also at 512 non-boundary values and in 8 fixed relations for every 16-bit x. Every sequence of up to 3 (thorough 4) instructions over the property's instructions and a 21-instruction context alphabet (incl. data labels and DS/ES changes) is run as one program and compared with the reference after every step.",
          "DESIGN.md section 6 C01"),
 }
 
-CHECKS["C02"] = ("bounded-exhaustive enumeration of values x counts 0..255 x carry x operand forms on the real Preprocessor+Interpreter, compared with a single-bit-step reference (explicit-state, depth 1)",
-    "All 256 byte values x all 256 counts x carry-in for the 8 shift/rotate spellings with immediate and CL counts (words: lattice in quick, all 65536 in thorough), all 2^16 byte pairs for AND/OR/XOR/TEST, all values for NOT, and every operand form of syntax.md; every post state compared in full with the reference.",
+CHECKS["C02"] = ("bounded-exhaustive enumeration of values x counts 0..255 x carry x operand forms on the real Preprocessor+Interpreter, compared with a single-bit-step reference (explicit-state, depth 1); plus exhaustive instruction sequences (histories) of depth 3/4 on one machine and one Interpreter object compared after every step",
+    "All 256 byte values x all 256 counts x carry-in for the 8 shift/rotate spellings with immediate and CL counts (words: lattice in quick, all 65536 in thorough), all 2^16 byte pairs for AND/OR/XOR/TEST, all values for NOT, and every operand form of syntax.md; every post state compared in full with the reference. Word operands also at 512 non-boundary values and in 8 fixed relations for every 16-bit x. Every sequence of up to 3 (thorough 4) instructions over the property's instructions and a 21-instruction context alphabet (incl. data labels and DS/ES changes) is run as one program and compared with the reference after every step.",
     "DESIGN.md section 6 C02")
-CHECKS["C03"] = ("bounded-exhaustive enumeration of AX/DX:AX x operand (bytes exhaustive, words on boundary lattices + per-divisor overflow boundaries) and of AX x AF x CF for the adjusts, on the real pipeline, plus end-to-end divide-error programs through the real CLI binary",
-    "All AL x operand pairs x AH set for byte MUL/IMUL/DIV/IDIV, word lattice cubes and, for each divisor, the dividends around the quotient-overflow boundary, all 2^18 (AX,AF,CF) states for the 8 adjust instructions, every operand form including the implicit registers; outcome (NEXT vs INT 0), AX/DX, CF/OF and the frame are compared with the reference; 8 CLI programs check the divide-error message, line and termination.",
+CHECKS["C03"] = ("bounded-exhaustive enumeration of AX/DX:AX x operand (bytes exhaustive, words on boundary lattices + per-divisor overflow boundaries) and of AX x AF x CF for the adjusts, on the real pipeline, plus end-to-end divide-error programs through the real CLI binary; plus exhaustive instruction sequences (histories) of depth 3/4 on one machine and one Interpreter object compared after every step",
+    "All AL x operand pairs x AH set for byte MUL/IMUL/DIV/IDIV, word lattice cubes and, for each divisor, the dividends around the quotient-overflow boundary, all 2^18 (AX,AF,CF) states for the 8 adjust instructions, every operand form including the implicit registers; outcome (NEXT vs INT 0), AX/DX, CF/OF and the frame are compared with the reference; 8 CLI programs check the divide-error message, line and termination. Word operands also at non-boundary values and in 8 fixed relations for every 16-bit x. Every sequence of up to 3 (thorough 4) instructions over the property's instructions and a 21-instruction context alphabet (incl. data labels and DS/ES changes) is run as one program and compared with the reference after every step.",
     "DESIGN.md section 6 C03")
 CHECKS["C04"] = ("bounded-exhaustive enumeration of address forms x overrides x consumers x register/segment lattices on the real pipeline with address-exact memory markers and a whole-memory diff",
     "Every address form of syntax.md (8 displacements incl. negative/wrapping) x 5 segment choices x both widths x 12 consumer instructions x base/index lattice x 6 segment values that straddle 2^20; the operand value lives only at the reference address and decoys sit at the plausible wrong ones, so every load and store is address-exact; plus label operands and byte-register aliasing.",
     "DESIGN.md section 6 C04")
-CHECKS["C05"] = ("bounded-exhaustive single-step enumeration of all MOV/XCHG/PUSH/POP/singleton forms plus explicit-state breadth-first search over push/pop histories on the product of the real machine and a reference stack",
-    "All data-transfer operand forms x values x SS:SP corner cases compared in full with the reference; all sequences of 12 push/pop events up to depth 4 (quick) / 6 (thorough) from 24 initial stack positions with canonical-state deduplication; source-level push/pop round trips.",
+CHECKS["C05"] = ("bounded-exhaustive single-step enumeration of all MOV/XCHG/PUSH/POP/singleton forms plus explicit-state breadth-first search over push/pop histories on the product of the real machine and a reference stack; plus exhaustive instruction sequences (histories) of depth 3/4 on one machine and one Interpreter object compared after every step",
+    "All data-transfer operand forms x values x SS:SP corner cases compared in full with the reference; all sequences of 12 push/pop events up to depth 4 (quick) / 6 (thorough) from 24 initial stack positions with canonical-state deduplication; source-level push/pop round trips. PUSH/POP operands overlapping the stack slot by -4..+4 bytes. Every sequence of up to 3 (thorough 4) instructions over the property's instructions and a 21-instruction context alphabet (incl. data labels and DS/ES changes) is run as one program and compared with the reference after every step.",
     "DESIGN.md section 6 C05")
 CHECKS["C06"] = ("exhaustive enumeration of all 2^16 flag words (jumps) and all 2^16 CX values (JCXZ/LOOPx) for all 74 spellings, assembled by the real Preprocessor and executed by the real Interpreter, against the Intel predicate table",
     "Every jump/loop spelling of syntax.md in both cases, every flag word / CX value: outcome, CX, flags and registers compared with the reference; synonym and complement relations cross-checked on the observed behaviour.",
     "DESIGN.md section 6 C06")
-CHECKS["C07"] = ("bounded-exhaustive enumeration of string/REP spellings x DF x CX 0..N x segment pairs x pointer placements x terminating-element positions, each run to completion under the REPEAT protocol on the real Interpreter; whole-instruction reference and per-step CX invariant; CLI conformance for the driver's REPEAT branch",
-    "All 32 string/REP spellings in both cases, every CX up to 16 (quick) / 64 (thorough) plus large spot values, both directions, 4 (DS,ES) pairs incl. 1 MB wrap, overlapping and 0xFFFF-crossing pointers, every position of the first (non-)matching element and none; final machine state compared in full with the reference; every REPEAT answer must decrement CX by one; 9 programs through the real binary.",
+CHECKS["C07"] = ("bounded-exhaustive enumeration of string/REP spellings x DF x CX 0..N x segment pairs x pointer placements x terminating-element positions, each run to completion under the REPEAT protocol on the real Interpreter; whole-instruction reference and per-step CX invariant; CLI conformance for the driver's REPEAT branch; plus exhaustive instruction sequences (histories) of depth 3/4 on one machine and one Interpreter object compared after every step",
+    "All 32 string/REP spellings in both cases, every CX up to 16 (quick) / 64 (thorough) plus large spot values, both directions, 4 (DS,ES) pairs incl. 1 MB wrap, overlapping and 0xFFFF-crossing pointers, every position of the first (non-)matching element and none; final machine state compared in full with the reference; every REPEAT answer must decrement CX by one; 9 programs through the real binary. Overlaps by 0-3 bytes in both directions, aliasing segments, segment bits overlapping pointer bits, elements wrapping past the end of memory. Every sequence of up to 3 (thorough 4) instructions over the property's instructions and a 21-instruction context alphabet (incl. data labels and DS/ES changes) is run as one program and compared with the reference after every step.",
     "DESIGN.md section 6 C07")
 CHECKS["C08"] = ("small-scope exhaustive enumeration of all well-formed programs up to K items, each assembled by the real Preprocessor and run by a replica of the driver loop around the real Interpreter (bound to the real driver by running the smaller scopes through the CLI binary), compared with a reference interpreter on the AST",
-    "Every well-formed program with at most 5 (quick) / 6 (thorough) items over a 21-25 item alphabet (labels at every position incl. start, jumps, loop, calls, procedures with explicit/implied ret, macro use, nop, hlt, print): complete executed trace, halt reason and final registers equal the reference interpreter's; programs up to 3/4 items plus hand-built special cases also through the real binary with stdout matched against the reference events.",
+    "Every well-formed program with at most 5 (quick) / 6 (thorough) items over a 21-25 item alphabet (labels at every position incl. start, jumps, loop, calls, procedures with explicit/implied ret, macro use, nop, hlt, print): complete executed trace, halt reason and final registers equal the reference interpreter's; programs up to 3/4 items plus hand-built special cases also through the real binary with stdout matched against the reference events. Plus 13 large programs: calls, returns, loops, labels and procedures at emitted indices 65534-70000, 300 procedures nested to call depth 300, recursion 32767-65537 deep; tail recursion and shared procedure/label names through the binary.",
     "DESIGN.md section 6 C08")
 CHECKS["C09"] = ("bounded-exhaustive enumeration of every catalog shape x products of adversarial register/segment values over the registers it reads x memory backgrounds, executed on the real Interpreter built with integer-overflow checks; panics caught; CLI runs for the interrupt services at the top of memory",
     "About 13 000 instruction shapes (every mnemonic x operand form x address form x override) x adversarial products (offsets/values/segments that make seg*16+off straddle 2^20, counts, divisors) x 2 memory backgrounds: every execution must end in a defined State or a reported error - a caught panic (index out of range, arithmetic or shift overflow) or a non-terminating REPEAT is the violation; 135 CLI programs drive INT 10h/21h with buffers at 0xFFFFF.",
@@ -51,7 +51,7 @@ CHECKS["C12"] = ("small-scope exhaustive enumeration of all SET/DB/DW sequences 
     "All definition sequences of the bound (values at the signed/unsigned extremes, counts 0..65535, strings, segments that wrap at 1 MB): the whole 1 MB equals the reference image, every label resolves to its first byte via the label map, via OFFSET and via a load through the label operand; more than 64 KiB per segment must be diagnosed; DS=0 at start through the CLI.",
     "DESIGN.md section 6 C12")
 CHECKS["C13"] = ("exhaustive enumeration of every macro use graph over up to 3 (4) macros plus parameter-name/template/argument-kind products; differential oracle: real Preprocessor on the macro program vs. real Preprocessor on the reference (textual, whole-word) expansion; deep chains through the real binary in child processes",
-    "All 2^(n*n) use graphs for n<=3 macros (n=4 in thorough) used from top level and from a procedure: acyclic ones must emit exactly the hand-expanded body, cyclic/unknown ones must be refused with a diagnostic at a use site; colliding parameter names x 9 body templates x 16 argument kinds; by-name passing; chains to depth 64 exactly and to 4096 without abort.",
+    "All 2^(n*n) use graphs for n<=3 macros (n=4 in thorough) used from top level and from a procedure: acyclic ones must emit exactly the hand-expanded body, cyclic/unknown ones must be refused with a diagnostic at a use site; colliding parameter names x 9 body templates x 16 argument kinds; by-name passing; chains to depth 64 exactly and to 4096 without abort. Plus use sequences over empty/blank bodies, macros with 9-13 parameters, DS/SS-override arguments, unsigned-only slots, argument substitution inside procedures.",
     "DESIGN.md section 6 C13")
 CHECKS["C14"] = ("exhaustive enumeration of every applicable single semantic mutation (about 190 invalid lines x insertion positions, structural mutations, all unsupported INT numbers) of verified-valid base programs; each mutant checked at library level and through the real CLI binary",
     "Every mutant must be refused: Preprocessor Err or the driver-level label/start checks, and on the real binary a non-empty diagnostic with no program output, prompt or interrupt output; base programs are first verified to run and print so that silence means refusal.",
